@@ -635,7 +635,7 @@ func emitMimcAll() {
 	for _, n := range names {
 		b.WriteString("import GnarkVerif.Gen.Imp.Mimc_" + n + "\n")
 	}
-	b.WriteString("\nnamespace GV.Gen.Imp.MimcAll\nopen GV.GoImp\n\n")
+	b.WriteString("\nset_option linter.unusedSimpArgs false\n\nnamespace GV.Gen.Imp.MimcAll\nopen GV.GoImp\n\n")
 	b.WriteString("/-- (package, the literal n of `if len(newState) != n` in SetState) -/\ndef stateLen : List (String × Int) := [\n")
 	for i, n := range names {
 		sep := ","
@@ -656,8 +656,8 @@ func emitMimcAll() {
 			if fn == "SetState" && digestStateLen[n] != digestStateLen["bn254"] {
 				continue
 			}
-			fmt.Fprintf(&b, "theorem %s_%s_same : @Mimc_%s.%s = @Mimc_bn254.%s := by\n  first | rfl | (funext %s; simp only [Mimc_%s.%s, Mimc_bn254.%s, %s_checksum_loop_same, %s_Write_loop_same, %s])\n",
-				n, fn, n, fn, fn, args, n, fn, fn, n, n, sameDeps(n, fn))
+			fmt.Fprintf(&b, "theorem %s_%s_same : @Mimc_%s.%s = @Mimc_bn254.%s := by\n  first | rfl | (funext %s%s; simp only [Mimc_%s.%s, Mimc_bn254.%s, %s_checksum_loop_same, %s_Write_loop_same, %s] <;> rfl)\n",
+				n, fn, n, fn, fn, args, digestArgNames[fn], n, fn, fn, n, n, sameDeps(n, fn))
 		}
 		b.WriteString("\n")
 	}
@@ -683,6 +683,7 @@ func sameDeps(n, fn string) string {
 }
 
 var digestStateLen = map[string]string{}
+var digestArgNames = map[string]string{} // explicit parameters of each translated function (" d p"), for the funext of MimcAll
 
 // the literal of `if len(newState) != <n>` (first statement of SetState), recorded for MimcAll
 func (p *impPkg) recordStateLen() {
